@@ -23,9 +23,9 @@ const (
 	Hour        = rtime.Hour
 )
 
-func Now() Time                  { return rtime.Now() }
-func Since(t Time) Duration      { return rtime.Since(t) }
-func Until(t Time) Duration      { return rtime.Until(t) }
+func Now() Time             { return rtime.Now() }
+func Since(t Time) Duration { return rtime.Since(t) }
+func Until(t Time) Duration { return rtime.Until(t) }
 func Sleep(d Duration) {
 	if vrt.Active() {
 		vrt.Step("time.sleep")
